@@ -623,3 +623,59 @@ func (s *scripted) Do(f func() error) (bool, error) {
 		return core.NewComboBreaker(ob, simple(closed, false)).Do(f)
 	}
 }
+
+// c20.defaultcap: a location without a control of its own lives on SystemParameters.DefaultControl (what a System installs
+// as DefaultLocControl and what /api/sys/loccontrol edits IN PLACE). The capacity in force is the one configured when the
+// add arrives, also for a location that was used before the maximum was lowered.
+// case: {first_max, then_max, n, state}; own process (global setting).
+func init() {
+	register("c20.defaultcap", func(c map[string]interface{}) interface{} {
+		save := core.SystemParameters.DefaultControl
+		defer func() { core.SystemParameters.DefaultControl = save }()
+		ctl := core.DefaultControl()
+		ctl.Verbosity = core.NOTHING
+		ctl.MaxFacts = int(c20num(c, "first_max"))
+		core.SystemParameters.DefaultControl = ctl
+		ctx := c20ctx()
+		store, _ := core.NewMemStorage(ctx)
+		var state core.State
+		var err error
+		if s, _ := c["state"].(string); s == "linear" {
+			state, err = core.NewLinearState(ctx, "c20dc", store)
+		} else {
+			state, err = core.NewIndexedState(ctx, "c20dc", store)
+		}
+		if err != nil {
+			return map[string]interface{}{"err": "state:" + err.Error()}
+		}
+		loc, err := core.NewLocation(ctx, "c20dc", state, nil)
+		if err != nil {
+			return map[string]interface{}{"err": "loc:" + err.Error()}
+		}
+		// first use: the location consults (and adopts) the default control
+		if _, err := loc.AddFact(ctx, "f0", core.Map{"k": 0.0}); err != nil {
+			return map[string]interface{}{"err": "first add:" + err.Error()}
+		}
+		// the maximum is lowered in place
+		ctl.MaxFacts = int(c20num(c, "then_max"))
+		accepted, refused, other := 0, 0, 0
+		for i := 1; i <= int(c20num(c, "n")); i++ {
+			var e error
+			if i%2 == 0 {
+				_, e = loc.AddRule(ctx, fmt.Sprintf("r%d", i), core.Map{"when": map[string]interface{}{"pattern": map[string]interface{}{"a": "?x"}}, "action": map[string]interface{}{"code": "1"}})
+			} else {
+				_, e = loc.AddFact(ctx, fmt.Sprintf("f%d", i), core.Map{"k": float64(i)})
+			}
+			switch {
+			case e == nil:
+				accepted++
+			case strings.Contains(e.Error(), "capacity") || strings.Contains(e.Error(), "Capacity") || strings.Contains(e.Error(), "too many") || strings.Contains(e.Error(), "full"):
+				refused++
+			default:
+				other++
+			}
+		}
+		size, _ := loc.StateSize(ctx)
+		return map[string]interface{}{"accepted": accepted, "refused": refused, "other": other, "size": size}
+	})
+}
